@@ -5,16 +5,30 @@
 
 #include <etl/_config/all.hpp>
 
+#include <etl/_bit/bit_cast.hpp>
+#include <etl/_cstdint/uint_t.hpp>
 #include <etl/_type_traits/is_constant_evaluated.hpp>
 
 namespace etl {
 
 namespace detail {
 
+/// Reads the sign bit of the representation, so that +0 and -0 are told apart and the
+/// sign of a NaN is seen (a comparison with zero can do neither).
 template <typename T>
 [[nodiscard]] constexpr auto signbit_fallback(T arg) noexcept -> bool
 {
-    return arg == T(-0.0) || arg < T(0);
+    if constexpr (sizeof(T) == sizeof(etl::uint32_t)) {
+        return (etl::bit_cast<etl::uint32_t>(arg) >> 31U) != 0U;
+    } else if constexpr (sizeof(T) == sizeof(etl::uint64_t)) {
+        return (etl::bit_cast<etl::uint64_t>(arg) >> 63U) != 0U;
+    } else {
+#if __has_builtin(__builtin_copysignl)
+        return __builtin_copysignl(1.0L, static_cast<long double>(arg)) < 0.0L;
+#else
+        return arg < T(0);
+#endif
+    }
 }
 
 } // namespace detail
